@@ -36,6 +36,9 @@ type solveOpts struct {
 
 // solveOne races the solvers on one obligation.
 func solveOne(o *Obligation, opts solveOpts) {
+	if o.Preset {
+		return
+	}
 	q := o.smt()
 	o.Bytes = len(q)
 	if len(q) > maxVCBytes {
